@@ -428,6 +428,10 @@ func (fc *funcContext) objectName(o types.Object) string {
 		fc.pkgCtx.DeclareDCEDep(o, nestTArgs, nil)
 
 		if o.Pkg() != fc.pkgCtx.Pkg || (isVarOrConst(o) && o.Exported()) {
+			if !isVarOrConst(o) {
+				// Functions and types are exported under their encoded name.
+				return fc.pkgVar(o.Pkg()) + "." + encodeIdent(o.Name())
+			}
 			return fc.pkgVar(o.Pkg()) + "." + o.Name()
 		}
 	}
